@@ -237,7 +237,7 @@ func (tree *MutableTree) Iterate(fn func(key []byte, value []byte) bool) (stoppe
 			return true, nil
 		}
 	}
-	return false, nil
+	return false, itr.Error()
 }
 
 // Iterator returns an iterator over the mutable tree.
@@ -587,6 +587,9 @@ func (tree *MutableTree) enableFastStorageAndCommitIfNotEnabled() (bool, error) 
 		if err := tree.ndb.DeleteFastNode(fastItr.Key()); err != nil {
 			return false, err
 		}
+	}
+	if err := fastItr.Error(); err != nil {
+		return false, err
 	}
 
 	if err := tree.enableFastStorageAndCommit(); err != nil {
